@@ -124,7 +124,7 @@ Ltac p_field_imm kw key cls c w H Hw Hp :=
   pose proof H as Hc; apply arr_field_ok_elim in Hc; destruct Hc as [Hc _];
   match goal with |- parse_line ?l = _ => change l with (key ++ join " " [c; w]) end;
   rewrite (parse_line_rule_words [kw] key cls STxField [c; w]);
-  [ change (join " " [c; w]) with (c ++ " " ++ w); cbn [parse_shape];
+  [ change (join " " [c; w]) with (c ++ " " ++ w); cbn [parse_imm parse_shape];
     rewrite (parse_tx_field_arr_w c w _ H Hp); cbn [bind]; rewrite fix_params_field; reflexivity
   | discriminate | vmr | vmr | vmr | vmr | vmr | discriminate
   | apply word_ok_pair; [exact Hc|exact Hw] ].
@@ -197,7 +197,7 @@ Ltac p_gtxn_imm kw key cls wi i c w n H Hwi Hpi Hw Hp :=
   match goal with |- parse_line ?l = _ => change l with (key ++ join " " [wi; c; w]) end;
   rewrite (parse_line_rule_words [kw] key cls SGtxn [wi; c; w]);
   [ change (join " " [wi; c; w]) with (wi ++ " " ++ c ++ " " ++ w);
-    rewrite (parse_shape_gtxn_arr wi i c w n H Hwi Hpi Hw Hp); cbn [bind]; rewrite fix_params_int_field; reflexivity
+    cbn [parse_imm]; rewrite (parse_shape_gtxn_arr wi i c w n H Hwi Hpi Hw Hp); cbn [bind]; rewrite fix_params_int_field; reflexivity
   | discriminate | vmr | vmr | vmr | vmr | vmr | discriminate
   | apply word_ok_triple; [exact Hwi|exact Hc|exact Hw] ].
 
@@ -245,7 +245,7 @@ Ltac rt_field_stack kw key cls c H :=
   str_instr2; rewrite str_of_field_stack;
   match goal with |- parse_line ?l = _ => change l with (key ++ join " " [c]) end;
   rewrite (parse_line_rule_words [kw] key cls STxFieldStack [c]);
-  [ cbn [join parse_shape]; rewrite (parse_tx_field_arr_stack c H); cbn [bind];
+  [ cbn [join parse_imm parse_shape]; rewrite (parse_tx_field_arr_stack c H); cbn [bind];
     rewrite fix_params_field; reflexivity
   | discriminate | vmr | vmr | vmr | vmr | vmr | discriminate
   | apply word_ok_single; exact Hw ].
@@ -285,7 +285,7 @@ Ltac p_gtxn_stack kw key cls wi i c H Hwi Hpi :=
   match goal with |- parse_line ?l = _ => change l with (key ++ join " " [wi; c]) end;
   rewrite (parse_line_rule_words [kw] key cls SGtxnStack [wi; c]);
   [ change (join " " [wi; c]) with (wi ++ " " ++ c);
-    rewrite (parse_shape_gtxn_stack_arr wi i c H Hwi Hpi); cbn [bind]; rewrite fix_params_int_field; reflexivity
+    cbn [parse_imm]; rewrite (parse_shape_gtxn_stack_arr wi i c H Hwi Hpi); cbn [bind]; rewrite fix_params_int_field; reflexivity
   | discriminate | vmr | vmr | vmr | vmr | vmr | discriminate
   | apply word_ok_pair; [exact Hwi|exact Hw] ].
 
